@@ -50,3 +50,15 @@ Example a_good_token_is_admitted :
   admitted (HToken {| t_alg := 0; t_key := 0; t_sig := 0; t_claims := 0; t_aud := 0; t_exp := 3600;
                       t_scope := 0; t_scheme := 0 |}) = true.
 Proof. reflexivity. Qed.
+
+(* whatever a token was, once its expiry instant has passed it is not admitted - also when the very same header
+   text was admitted a moment ago (no verdict may be remembered beyond the token's life) *)
+Lemma expired_never_admitted h : admitted (expire h) = false.
+Proof.
+  destruct h as [| t | |]; try reflexivity. unfold expire, admitted, token_ok. cbn.
+  repeat rewrite andb_false_r || rewrite andb_false_l. 
+  destruct (t_alg t =? 0), (t_key t =? 0), (t_sig t =? 0), (t_claims t =? 0), ((t_aud t =? 0) || (t_aud t =? 2)); reflexivity.
+Qed.
+
+Lemma reuse_after_expiry_refused st rpc k h : snd (call true st rpc k (expire h)) = UNAUTHENTICATED.
+Proof. unfold call. rewrite expired_never_admitted. reflexivity. Qed.
